@@ -75,7 +75,11 @@ def _inlinable(fn):
     if a.vararg or a.kwarg or a.posonlyargs:
         return False
     for d in fn.decorator_list:
-        if not (isinstance(d, ast.Name) and d.id in ('staticmethod', 'classmethod')):
+        f_ = d.func if isinstance(d, ast.Call) else d
+        nm = f_.attr if isinstance(f_, ast.Attribute) else getattr(f_, 'id', None)
+        # a (correct) cache computes what the function computes; whether it is correct is the
+        # interface rule's question
+        if nm not in ('staticmethod', 'classmethod', 'lru_cache', 'cache'):
             return False
     for n in _walk_no_defs(fn):
         if isinstance(n, (ast.Yield, ast.YieldFrom, ast.Await, ast.Global, ast.Nonlocal,
@@ -593,6 +597,70 @@ def undo_param_renames(modules, known_params):
     return done
 
 
+def keyword_table(modules):
+    """{simple name: parameter list} of the functions (and class constructors) of the
+    repository whose name determines one parameter list."""
+    return _keyword_table(modules)
+
+
+def positional_keywords(node, by_name):
+    """Normal form of a call to a function of the repository: an argument passed by keyword
+    whose parameter is the next positional one is written positionally (``f(a, y=b)`` is
+    ``f(a, b)`` when y is f's second parameter); remaining keywords are put in parameter order.
+    The callee is found by its simple name; the rewrite happens only when every function (or
+    class constructor) of that name in the repository has the same parameter list."""
+    count = 0
+    for tree in (node,):
+        for n in ast.walk(tree):
+            if not (isinstance(n, ast.Call) and n.keywords):
+                continue
+            f = n.func
+            name = f.attr if isinstance(f, ast.Attribute) else getattr(f, 'id', None)
+            params = by_name.get(name)
+            if params is None:
+                continue
+            if any(k.arg is None or k.arg not in params for k in n.keywords) or \
+                    any(isinstance(x, ast.Starred) for x in n.args):
+                continue
+            kws = {k.arg: k for k in n.keywords}
+            if len(kws) != len(n.keywords):
+                continue
+            i = len(n.args)
+            moved = False
+            while i < len(params) and params[i] in kws:
+                n.args.append(kws.pop(params[i]).value)
+                i += 1
+                moved = True
+            rest = sorted(kws.values(), key=lambda k: params.index(k.arg))
+            if moved or [k.arg for k in rest] != [k.arg for k in n.keywords]:
+                count += 1
+            n.keywords = rest
+    return count
+
+
+def _keyword_table(modules):
+    table = _func_table(modules)
+    by_name = {}
+    for q, (fn, modname, cls) in table.items():
+        a = fn.args
+        if a.vararg or a.posonlyargs:
+            params = None
+        else:
+            params = [x.arg for x in a.args]
+            static = any(isinstance(d, ast.Name) and d.id == 'staticmethod' for d in fn.decorator_list)
+            if cls and not static and params:
+                params = params[1:]
+        name = q.rsplit('.', 1)[1]
+        if name == '__init__' and cls:
+            name = cls.rsplit('.', 1)[-1] if isinstance(cls, str) else getattr(cls, 'name', None)
+        elif name.startswith('__'):
+            continue
+        if name:
+            by_name.setdefault(name, []).append(params)
+    return {n: c[0] for n, c in by_name.items()
+            if c[0] is not None and all(x == c[0] for x in c)}
+
+
 def fold_new_constants(modules, known_constants):
     """A module-level name bound once to a literal, that the reference module does not have,
     names a repeated literal: put the literal back where the name is read.
@@ -611,8 +679,14 @@ def fold_new_constants(modules, known_constants):
             if name in ref or len(sts) != 1:
                 continue
             v = sts[0].value
-            if not (isinstance(v, ast.Constant) and isinstance(v.value, (str, int, float, bytes))
-                    and not isinstance(v.value, bool)):
+            scalar = isinstance(v, ast.Constant) and isinstance(v.value, (str, int, float, bytes)) \
+                and not isinstance(v.value, bool)
+            immutable = isinstance(v, ast.Tuple) and all(isinstance(e, ast.Constant) for e in v.elts)
+            if isinstance(v, ast.Call) and isinstance(v.func, ast.Name) and v.func.id == 'frozenset' \
+                    and len(v.args) == 1 and isinstance(v.args[0], (ast.Tuple, ast.List, ast.Set)) \
+                    and all(isinstance(e, ast.Constant) for e in v.args[0].elts):
+                immutable = True
+            if not (scalar or immutable):
                 continue
             stores = sum(1 for n in ast.walk(tree) if isinstance(n, ast.Name) and n.id == name and
                          isinstance(n.ctx, (ast.Store, ast.Del)))
@@ -622,7 +696,12 @@ def fold_new_constants(modules, known_constants):
             class Sub(ast.NodeTransformer):
                 def visit_Name(self, node):
                     if node.id == name and isinstance(node.ctx, ast.Load):
-                        return ast.copy_location(ast.Constant(value=v.value), node)
+                        new = copy.deepcopy(v)
+                        if isinstance(new, ast.Call):        # frozenset((..)) -> the display
+                            new = ast.Tuple(elts=new.args[0].elts, ctx=ast.Load())
+                        for x in ast.walk(new):
+                            ast.copy_location(x, node)
+                        return new
                     return node
             Sub().visit(tree)
             tree.body.remove(sts[0])
